@@ -35,6 +35,12 @@ Theorem C12_data_keeps_plain_fields : forall ty raw off fs,
     forall f, In f fs -> ordinary_key (fst f) = true -> In (fst f, value_of (snd f)) data.
 Proof. exact data_of_plain_body. Qed.
 
+(* a hex-encoded field (exe, cwd, proctitle, USER_CMD cmd, TTY data, PATH name, acct) is decoded to the bytes the
+   kernel encoded, NULs as blanks, whatever they are *)
+Theorem C12_hex_field_decodes : forall k m bs v0, kv_get (L k) m = Some (Hex.hex_upper bs, v0) ->
+  exists m', hex_field k m = Some m' /\ kv_get (L k) m' = Some (Hex.hex_upper bs, nul_to_space bs).
+Proof. exact hex_field_decodes. Qed.
+
 (* the derived fields follow fixed rules: success= / res= become result=success|fail (and disappear),
    an unset auid / ses becomes "unset", a negative exit code becomes its errno name *)
 Theorem C12_result_rule : forall m o v, kv_get (L "success") m = Some (o, v) ->
@@ -64,6 +70,7 @@ Print Assumptions C12_quoted_field_tokenised.
 Print Assumptions C12_body_tokenised.
 Print Assumptions C12_fields_extracted.
 Print Assumptions C12_data_keeps_plain_fields.
+Print Assumptions C12_hex_field_decodes.
 Print Assumptions C12_result_rule.
 Print Assumptions C12_unset_rule.
 Print Assumptions C12_exit_rule.
